@@ -483,7 +483,9 @@ Fixpoint dl_recs (fuel : nat) (g : glob) (n : option nat) : glob * list line :=
       let '(g2, l2) :=
         match znode (grec g k) with
         | Some d => let '(ga, ea) := do_destroy g0 d in let '(gb, eb) := do_dealloc ga d in (gb, fl_of ea d ++ fl_of eb d)
-        | None => if unfixed g then (with_fault g0, [[-2; K_FAULT; 0; 2]]) else (g0, [])
+        | None => if unfixed g
+                  then (with_fault g0, [[-2; K_DESTROY; 0]; [-2; K_FAULT; 0; 2]; [-2; K_DEALLOC; 0]; [-2; K_FAULT; 0; 2]])
+                  else (g0, [])
         end in
       let '(g3, e3) := do_destroy g2 k in
       let '(g4, e4) := do_dealloc g3 k in
